@@ -1,1 +1,67 @@
+/-
+  C12  Rule labels and head directions on trees are those the grammar assigned.
+
+  (a) Parser output: `SearchProps.returned_valid` — every node of a returned derivation carries the
+      rule id of the grammar result that created it (`Licensed`: `(g.bin …)[rid]? = some ⟨cat, headLeft⟩`,
+      `(g.un …)[rid]? = some cat`); the glue turns the rule id into label / symbol / head direction
+      by indexing the same result list (checked by the correspondence at glue level).
+  (b) Readers: `guess_spec` below; the readers' images (`TextProps.autoImage`, `C20.ptbImage`)
+      label binary nodes with exactly this `guess`, see C08.auto_roundtrip / C20.ptb_roundtrip.
+-/
 import Depccg.Props.SearchBasics
+import Depccg.Tree
+import Depccg.Props.C13
+
+namespace Depccg.C12
+open Depccg
+
+/-- a binary node whose category the active grammar derives from its children carries the label,
+    symbol and head direction of the first rule result deriving it … -/
+theorem guess_derivable (lang : Lang) (target x y : Cat) (rs : List RuleRes)
+    (h : binaryRules lang x y = .ok rs) (hd : ∃ r ∈ rs, r.cat = target) :
+    ∃ r, guess lang target x y = .ok r ∧ r ∈ rs ∧ r.cat = target := by
+  obtain ⟨r0, hr0, hc⟩ := hd
+  unfold guess
+  rw [h]
+  simp only
+  cases hf : rs.find? (fun r => Cat.pyEq r.cat target) with
+  | none =>
+    have := List.find?_eq_none.1 hf r0 hr0
+    rw [← hc] at this
+    simp [(C13.pyEq_iff r0.cat r0.cat).2 rfl] at this
+  | some r =>
+    refine ⟨r, rfl, List.mem_of_find?_eq_some hf, ?_⟩
+    have := List.find?_some (p := fun r : RuleRes => Cat.pyEq r.cat target) hf
+    exact (C13.pyEq_iff r.cat target).1 this
+
+/-- … and only underivable nodes are labelled unknown -/
+theorem guess_underivable (lang : Lang) (target x y : Cat) (rs : List RuleRes)
+    (h : binaryRules lang x y = .ok rs) (hd : ¬ ∃ r ∈ rs, r.cat = target) :
+    guess lang target x y = .ok (unkRule target) := by
+  unfold guess
+  rw [h]
+  simp only
+  cases hf : rs.find? (fun r => Cat.pyEq r.cat target) with
+  | none => rfl
+  | some r =>
+    exfalso
+    exact hd ⟨r, List.mem_of_find?_eq_some hf, (C13.pyEq_iff r.cat target).1 (List.find?_some (p := fun r : RuleRes => Cat.pyEq r.cat target) hf)⟩
+
+/-- the guessed rule never changes the category written in the file -/
+theorem guess_cat (lang : Lang) (target x y : Cat) (r : RuleRes) (h : guess lang target x y = .ok r) :
+    r.cat = target := by
+  unfold guess at h
+  cases hb : binaryRules lang x y with
+  | error e => rw [hb] at h; cases h
+  | ok rs =>
+    rw [hb] at h
+    simp only at h
+    cases hf : rs.find? (fun r => Cat.pyEq r.cat target) with
+    | none => rw [hf] at h; cases h; rfl
+    | some r' =>
+      rw [hf] at h
+      simp only [Except.ok.injEq] at h
+      subst h
+      exact (C13.pyEq_iff r'.cat target).1 (List.find?_some (p := fun r : RuleRes => Cat.pyEq r.cat target) hf)
+
+end Depccg.C12
